@@ -700,6 +700,10 @@ func (dc *docCase) checkInput(ti *treeInfo) {
 			wantLetters['M']++
 			owner['M'] = i
 		}
+		if nd.d == dListItem {
+			owner['M'] = i
+			wantLetters['M'] += 0
+		}
 		if nd.alive && nd.x.footnote() && nd.d == dListItem {
 			// display:list-item on a footnote element: footnote-display decides the box (block or
 			// inline); whether the marker of the list item survives is not specified
